@@ -158,6 +158,47 @@ impl NamespaceStates {
     }
 }
 
+/// Verification hook: observable part of the coordination state for one document and peer.
+#[cfg(feature = "verif-hooks")]
+#[derive(Debug, Clone, PartialEq, Eq)]
+pub struct VerifPeerSnapshot {
+    /// Whether the document is in the sync set.
+    pub syncing: bool,
+    /// `None` when idle (or unknown peer), the origin of the running session otherwise.
+    pub running: Option<Origin>,
+    /// Whether a resync was requested during the running session.
+    pub resync_requested: bool,
+}
+
+#[cfg(feature = "verif-hooks")]
+impl NamespaceStates {
+    /// Snapshot of the state for a document and peer (does not create entries).
+    pub fn verif_snapshot(&self, namespace: &NamespaceId, node: &EndpointId) -> VerifPeerSnapshot {
+        let Some(ns) = self.0.get(namespace) else {
+            return VerifPeerSnapshot {
+                syncing: false,
+                running: None,
+                resync_requested: false,
+            };
+        };
+        match ns.nodes.get(node) {
+            None => VerifPeerSnapshot {
+                syncing: true,
+                running: None,
+                resync_requested: false,
+            },
+            Some(peer) => VerifPeerSnapshot {
+                syncing: true,
+                running: match &peer.state {
+                    SyncState::Idle => None,
+                    SyncState::Running { origin, .. } => Some(origin.clone()),
+                },
+                resync_requested: peer.resync_requested,
+            },
+        }
+    }
+}
+
 /// State of a node with regard to a namespace.
 #[derive(Default)]
 struct PeerState {
